@@ -21,9 +21,12 @@ RULE = ("TLC model-checks PEImpl.tla (the producer/flusher hand-off protocol of 
 
 FAM = "executors"
 PKG = "core/executors"
-DRV = ["zz_verif_pe_test.go"]
+# white-box accessors (harness ticker, container wrapper, executor behind Bulk/Chunk/BulkInserter, row threshold)
+# live in *_wb_test.go and degrade one by one; *_nowb_test.go (tag verifnowb, VERIF_NOWB=1) has none of them
+DRV = ["zz_verif_pe_test.go", "zz_verif_c11_wb_test.go", "zz_verif_c11_nowb_test.go"]
 SQLX = "core/stores/sqlx"
-SQLX_DRV = ["zz_verif_bulkinserter_test.go", "zz_verif_c11_bisteer_test.go"]
+SQLX_DRV = ["zz_verif_bulkinserter_test.go", "zz_verif_c11_bisteer_test.go", "zz_verif_c11_wb_test.go",
+            "zz_verif_c11_nowb_test.go"]
 TRACE = ("PETrace", "PETrace.cfg")
 KINDS = ["pe", "bulk", "chunk"]
 
@@ -68,14 +71,38 @@ def _sched(beh, thr, hook, kinds, fam):
     return out
 
 
-def _replay(run, scheds, label):
-    if not scheds:
-        return None
-    tr = run.go_driver(PKG, DRV, "TestVerifPEReplay$", inp=scheds, timeout=900)
+def _info(run, tr, label):
+    """what the driver says this tree / build offered (info events; no verdict depends on them): noted when degraded"""
     info = {}
     for ln in open(tr):
         if '"e":"info"' in ln:
             info = json.loads(ln)
+    msgs = []
+    if info.get("noticker"):
+        msgs.append("no harness ticker for %s (real ticker; tick steps of schedules do nothing)" % ",".join(info["noticker"]))
+    if info.get("notakes"):
+        msgs.append("no `take` events for %s" % ",".join(info["notakes"]))
+    if info.get("bi"):
+        if not info.get("rowsKnown"):
+            msgs.append("row threshold of BulkInserter not determined: %d schedules skipped" % info.get("skipped", 0))
+        elif not info.get("wb"):
+            msgs.append("row threshold of BulkInserter measured: %d" % info.get("rows", 0))
+        if info.get("rowsKnown") and not info.get("wait"):
+            msgs.append("no Wait on a BulkInserter (Wait steps left out, quiescence by Flush + statements seen)")
+    if msgs:
+        note = "%s: white-box handles unavailable (%s): %s" % (
+            label, "forced black box" if info.get("wb") is False else "this tree", "; ".join(msgs))
+        if note not in run.notes:
+            run.notes.append(note)
+        vlog("  note: " + note)
+    return info
+
+
+def _replay(run, scheds, label):
+    if not scheds:
+        return None
+    tr = run.go_driver(PKG, DRV, "TestVerifPEReplay$", inp=scheds, timeout=900)
+    info = _info(run, tr, label)
     if info.get("skipped"):
         run.notes.append("%s: %d schedules need the gate point pe.add.sent, which this tree does not have "
                          "(proposed/C11-hook.diff); skipped" % (label, info["skipped"]))
@@ -95,6 +122,9 @@ def _bisteer(run, beh, thr, n, rnd):
         return None
     scheds = [{"thr": thr, "steps": _steps(b)} for b in ok]
     tr = run.go_driver(SQLX, SQLX_DRV, "TestVerifBISteer$", inp=scheds, timeout=600)
+    info = _info(run, tr, "bulkinserter")
+    if not info.get("rowsKnown", True):
+        return tr
     run.evaluations += len(scheds)
     for s in scheds:
         run.distinct.add(("bulkinserter", thr, False, json.dumps(s["steps"], sort_keys=True)))
@@ -125,6 +155,10 @@ def check(run):
         "selects schedules; no verdict depends on it. The only time bound is a 20 s watchdog on calls that never return "
         "with every gate open, which the spec classifies (end.pending must be empty)",
         "the `take` events (container wrapper) feed only the guard of known finding KF_WaitMissesHandover",
+        "white-box handles (harness ticker, container wrapper and executor of Bulk/Chunk, row threshold and executor of "
+        "BulkInserter) are optional: reached by reflection / kept in *_wb_test.go, each degrades to the public API "
+        "(real ticker with a long interval in replay and a short one in stress, no take events, measured row threshold, "
+        "no Wait on an inserter); VERIF_NOWB=1 forces the variant without any of them",
         "the size a task is added with (ChunkExecutor.Add(task, size), logged as z) is not read by the property-level "
         "spec: the obligations towards a task do not depend on it",
         "sqlx.BulkInserter: Wait is PeriodicalExecutor.Wait on the inserter's executor; its flush timer is real "
@@ -190,10 +224,11 @@ def check(run):
     nruns = (320 if thorough else 90) if not kf_open else (30 if thorough else 10)
     for cpu in ([4] if not thorough else [1, 2, 4, 16]):
         tr = run.go_driver(PKG, DRV, "TestVerifPEStress$", cpu=cpu, timeout=900, env={"VERIF_PE_RUNS": nruns})
+        _info(run, tr, "stress")
         n0 = run.traces
         run.validate(FAM, TRACE[0], TRACE[1], tr, label="stress-cpu%d" % cpu, split=200)
-        run.evaluations += run.traces - n0
-        for i in range(run.traces - n0):
+        run.evaluations += run.traces - n0 - 1        # the last trace is the driver's info record
+        for i in range(run.traces - n0 - 1):
             run.distinct.add(("stress", cpu, run.seed, i))
     if thorough:
         _bulkinserter(run)
